@@ -28,15 +28,23 @@ def run(ctx):
     mcs = [L.model_check(ctx, "MC_c07_waloff.cfg", ACT_OFF, True, ["TypeOK", "Accounted", "LossExplained", "DupOnlyByReplay"]),
            L.model_check(ctx, "MC_c07_small.cfg", ACT_ON, True, ["TypeOK", "Accounted", "LossExplained", "DupOnlyByReplay"])]
     ctx.note("tlc_model_check", mcs)
-    base = {"MaxBuf": 1, "QCap": 1, "NWorkers": 1, "RPB": 1, "NHours": 1, "C07": True}
+    mcs.append(L.model_check(ctx, "MC_c07_keys.cfg", ACT_OFF + ("FANext", "AgStart", "AgNext"), True,
+                             ["TypeOK", "Accounted", "LossExplained", "DupOnlyByReplay", "FlushAckHonest"]))
+    base = {"MaxBuf": 1, "QCap": 1, "NWorkers": 1, "RPB": 1, "NHours": 1, "C07": True, "NKeys": 1, "NW": 1, "NBatch": 3}
     s_off, g_off = L.generate(ctx, "Gen_c07_waloff.cfg", dict(base, WalOn=False))
     # exhaustive small WAL-on generator (2 writes, 1 rotation, 1 outage, 1 tick): reaches every listed WAL mechanism deterministically
     s_core, g_core = L.generate(ctx, "Gen_c07_core.cfg", dict(base, WalOn=True))
     s_on, g_on = L.generate(ctx, "Gen_c07_walon.cfg", dict(base, WalOn=True), simulate=30 if q else 1500)
-    ctx.note("tlc_generation", [g_off, g_core, g_on])
+    # two buffer keys in one shard, WAL off, FlushAll with a transient failure on one key (all 82 scripts are run)
+    s_keys, g_keys = L.generate(ctx, "Gen_c07_keys.cfg", dict(base, WalOn=False, NKeys=2, NBatch=2, MaxBuf=3))
+    # WAL on, worker blocked, two size-triggered writes queued, one dropped (queue full), graceful shutdown
+    s_qf, g_qf = L.generate(ctx, "Gen_c07_qfull.cfg", dict(base, WalOn=True, NBatch=4, QCap=2))
+    ctx.note("tlc_generation", [g_off, g_core, g_on, g_keys, g_qf])
     allscripts = (L.pick(s_off, 50 if q else 400, 30 if q else 400, ctx.seed)
                   + L.pick(s_core, 150 if q else 1028, 20 if q else 600, ctx.seed + 2)
-                  + L.pick(s_on, 60 if q else 3000, 30 if q else 1500, ctx.seed + 1))
+                  + L.pick(s_on, 60 if q else 3000, 30 if q else 1500, ctx.seed + 1)
+                  + L.pick(s_keys, 100, 100, ctx.seed + 3)
+                  + L.pick(s_qf, 40 if q else 400, 10 if q else 100, ctx.seed + 4))
     for i, s in enumerate(allscripts):
         s["index"] = i
         s["consts"] = dict(s["consts"], Variant=i % 3)   # schema/hour pool slice, see mkBatch/realSig in the driver
